@@ -44,6 +44,7 @@ type C11Plan struct {
 	Scripts   []Script  `json:"scripts"`
 	Extra     []Req     `json:"extra,omitempty"` // additional seeded requests beyond the grid
 	Salt      int       `json:"salt"`            // rotates presets/scripts over the grid
+	Noise     [][]HV    `json:"noise,omitempty"` // bystander request headers added to every other request
 }
 
 type c11 struct{}
@@ -76,7 +77,7 @@ func (c11) FaultKinds() []string {
 	return []string{"handler_writes_after_writeheader", "handler_deletes_cors_header", "handler_sets_vary", "preset_vary_present", "preset_cors_header_present", "zero_length_header_list", "multi_valued_origin"}
 }
 func (c11) Probes() []string {
-	return []string{"preflight_on_configured", "preflight_on_passthrough", "non_preflight_options_with_origin", "actual_request_with_preset", "handler_invoked_once", "reconfigure_to_passthrough_and_back", "via_long_lived_wrapped_handler"}
+	return []string{"preflight_on_configured", "preflight_on_passthrough", "non_preflight_options_with_origin", "actual_request_with_preset", "handler_invoked_once", "reconfigure_to_passthrough_and_back", "via_long_lived_wrapped_handler", "bystander_request_headers"}
 }
 
 var c11HdrNames = []string{"Vary", "Access-Control-Allow-Origin", "Access-Control-Allow-Credentials", "Access-Control-Expose-Headers",
@@ -123,6 +124,9 @@ func (c11) Gen(r *R, tier string) any {
 			sc.Body = append(sc.Body, pick(r, []string{"", "hello", "x", "body-chunk"}))
 		}
 		p.Scripts = append(p.Scripts, sc)
+	}
+	for i := r.Range(1, 3); i > 0; i-- {
+		p.Noise = append(p.Noise, genNoise(r))
 	}
 	// extra requests: drawn from the probe suites (allowed origins, real preflights, lists)
 	for i := 0; i < 12; i++ {
@@ -307,6 +311,11 @@ func (c11) Exec(plan any, c *Ctx) *Violation {
 			if idx%3 != 0 {
 				via = longLived
 				c.hit("via_long_lived_wrapped_handler")
+			}
+			if len(p.Noise) > 0 && idx%2 == 0 {
+				// bystander headers: none of them takes part in the preflight predicate
+				q = q.withNoise(p.Noise[(idx/2)%len(p.Noise)])
+				c.hit("bystander_request_headers")
 			}
 			if v := c11Case(m, via, dg, configured, q, preset, sc, label, c); v != nil {
 				return v
